@@ -7,7 +7,9 @@ Bodies == JsonDeserialize(IOEnv.BODY)            \* settings bytes of configurat
 Body(x) == Bodies[x[4]]
 KeyLens == IF IOEnv.TIER = "quick" THEN {2, 3, 15, 16, 255, 256} ELSE {2, 3, 4, 5, 7, 8, 15, 16, 17, 31, 32, 64, 100, 128, 200, 255, 256}
 KeyOf(n) == [i \in 1..n |-> IF n = 16 /\ i % 2 = 0 THEN 0 ELSE ((i * 37 + n) % 254) + 1]      \* length 16: UTF-16-like, has zero bytes
-OptSets == { <<"user">>, <<"ip">>, <<"computer", "domain">>, <<"user", "computer", "domain", "ip">>, <<"domain", "ip">> }
+OptSets == { <<"user">>, <<"ip">>, <<"computer", "domain">>, <<"user", "computer", "domain", "ip">>, <<"domain", "ip">>,
+             <<"computer", "checksum", "user">>, <<"ip", "checksum", "domain", "user">> }
+             \* (the checksum need not be the last setting; the first one is an option: its header is what marks the guard configuration)
 \* "stored_minus1": the stored checksum is one too small; "plus1": a configuration byte of weight 1 (offset = 0 mod 3) is
 \* one larger than when the checksum was taken - the two smallest possible disagreements between checksum and content
 Kinds == {"none", "stored", "stored_minus1", "plus1", "settings_byte", "padding_byte", "byte0"}
